@@ -299,6 +299,16 @@ theorem bare_abandons_subtree :
     leaked (run (.opn .bare (.opn .bracketed (.yld .nil) (.yld .nil) .nil) (.yld .nil) .nil) [true]).1 = [1, 2] := by
   decide
 
+/-- the two answers of the driver's `gentree-check` agree: a tree is fully bracketed iff it has no bare site -/
+theorem allBracketed_iff_no_bare (g : G) : allBracketed g = true ↔ bareCount g = 0 := by
+  induction g with
+  | nil => simp [allBracketed, bareCount]
+  | yld k ih => simpa [allBracketed, bareCount] using ih
+  | awt k ih => simpa [allBracketed, bareCount] using ih
+  | opn br child body k ihc ihb ihk =>
+    cases br <;> simp [allBracketed, bareCount, ihc, ihb, ihk, Nat.add_eq_zero_iff, and_assoc]
+  | drain child k ihc ihk => simp [allBracketed, bareCount, ihc, ihk, Nat.add_eq_zero_iff]
+
 /-! ### the library's own iteration sites (Gen/AsyncSites.lean, regenerated from the source on every run) -/
 
 open JinjaV.Gen.AsyncSites in
